@@ -12,6 +12,21 @@ def run(ck: Check):
     from explore import oracle_session
     from universe import session_universe
     session_universe(ck, oracle_session, quick=ck.tier == "quick")
+    # a time limit that runs out says nothing about the outcome: the status still tells whether something was accepted
+    from explore import content
+    rr = rng("c11-limit") if "rng" in globals() else __import__("common").rng("c11-limit")
+    for strategy in ("minimize", "minimize-around", "minimize-balanced", "minimize-collapse-brace"):
+        for i in range(12 if ck.tier == "quick" else 120):
+            n = rr.randint(3, 9)
+            tcl = (b"", [b"%d\n" % j for j in range(n)], [True] * n, b"")
+            limit = rr.choice([1, 5])
+            t, clock = 100, []
+            for _ in range(80):
+                clock.append(t)
+                t += rr.choice([0, 0, 1, limit, limit + 1])
+            v = "Y" + "".join(rr.choice("YN") for _ in range(60))
+            ex.one(strategy, {"limit": limit}, tcl, content(tcl), v, clock=clock, stream="limit-status",
+                   model=strategy != "minimize-collapse-brace")
     ex.diff()
     return ck.finish(level="proof", rule=RULE + EXTRA_RULE, assumptions=ASSUME)
 
